@@ -67,7 +67,7 @@ pub fn read_ts_server_challenge(stream: &[u8]) -> RdpResult<Vec<u8>> {
     })?;
 
     let nego_tokens = cast!(ASN1Type::SequenceOf, ts_request["negoTokens"]).unwrap();
-    let first_nego_tokens = cast!(ASN1Type::Sequence, nego_tokens.inner[0]).unwrap();
+    let first_nego_tokens = cast!(ASN1Type::Sequence, try_option!(nego_tokens.inner.get(0), "negoTokens is empty")?).unwrap();
     let nego_token = cast!(ASN1Type::OctetString, first_nego_tokens["negoToken"]).unwrap();
     Ok(nego_token.to_vec())
 }
